@@ -183,6 +183,16 @@ func isPool(vs *ast.ValueSpec) bool {
 	}
 	for _, v := range vs.Values {
 		ast.Inspect(v, look)
+		// var x = newSomethingPool(): a constructor of the same package whose result type is a pool
+		if call, ok := v.(*ast.CallExpr); ok {
+			if id, ok := call.Fun.(*ast.Ident); ok && id.Obj != nil {
+				if fd, ok := id.Obj.Decl.(*ast.FuncDecl); ok && fd.Type.Results != nil {
+					for _, r := range fd.Type.Results.List {
+						ast.Inspect(r.Type, look)
+					}
+				}
+			}
+		}
 	}
 	return found
 }
